@@ -32,7 +32,7 @@ required; the harness now sends `dreq = false` for such fields and the F49 witne
 Repeated application (same converter or a copy, possibly after the hierarchy has grown) is modelled by
 `Setup.hooksAfter`: the later application captures the earlier one's hooks; `C14_reapplied_hooks_auto` shows they meet
 `ConformsExact`'s demand on captured hooks.  For the union strategy with `forbid_extra_keys` they do NOT (the earlier
-union hook looks for the tag the later one has popped): finding F53, reproduced by the driver's `SUBCLSN`.
+union hook looks for the tag the later one has popped): finding F58, reproduced by the driver's `SUBCLSN`.
 -/
 namespace CattrsModel
 open Subclasses
@@ -401,10 +401,10 @@ hooks it captures are those of the first application -/
 def c14UnionTwice : Setup :=
   { c14Union true with H := (c14Union true).hooksAfter (concHooks c14Tree true) }
 
-/-- **C14_F53_union_reapplied_witness** (finding F53): after the second application an instance of `Parent` itself no
+/-- **C14_F58_union_reapplied_witness** (finding F58): after the second application an instance of `Parent` itself no
 longer round-trips through `Parent` (the new union hook pops the tag, the captured old one looks for it), while it did
 after the first; without `forbid_extra_keys` the second application is harmless. -/
-theorem C14_F53_union_reapplied_witness :
+theorem C14_F58_union_reapplied_witness :
     (c14Union true).roundTrip 0 (.inst 0 [("a", .int 1)]) = some (.inst 0 [("a", .int 1)]) ∧
     c14UnionTwice.applyOk = true ∧ c14UnionTwice.roundTrip 0 (.inst 0 [("a", .int 1)]) = Option.none ∧
     ({ c14Union false with H := (c14Union false).hooksAfter (concHooks c14Tree false) } : Setup).roundTrip 0
